@@ -181,6 +181,28 @@ def _unpack_plaintext(data: bytes) -> bytes:
         ) from exc
 
 
+def _require_canonical_b64(token: bytes, raw: bytes) -> None:
+    """Refuse a token whose text is not the canonical base64 of its envelope.
+
+    ``base64.b64decode(validate=True)`` ignores the unused low bits of the
+    last character before ``=`` / ``==``, so up to 15 other spellings of a
+    token decode to the same envelope and would pass the AEAD check.  Tokens
+    are minted with :func:`base64.b64encode`; only that spelling is a token
+    this server issued, so any other one fails verification like a tampered
+    envelope does.
+
+    Args:
+        token: The token text as received.
+        raw: What it decoded to.
+
+    Raises:
+        crypto.SealError: If ``token`` is not ``base64.b64encode(raw)``.
+
+    """
+    if base64.b64encode(raw) != bytes(token):
+        raise crypto.SealError("non-canonical token encoding")
+
+
 def _compute_call_aad(auth: AuthContext | None) -> bytes:
     r"""Build the AAD that binds a *call* token to its issuing principal.
 
@@ -367,6 +389,7 @@ def _open_call_token_dated(
         ) from exc
 
     try:
+        _require_canonical_b64(token, raw)
         sealed_plaintext: bytes = crypto.open_bytes(raw, token_key, aad=aad, version=_CALL_TOKEN_VERSION)
     except crypto.SealError as exc:
         raise _RpcHttpError(
@@ -702,6 +725,7 @@ def _open_cursor_token(
         ) from exc
 
     try:
+        _require_canonical_b64(token, raw)
         sealed_plaintext: bytes = crypto.open_bytes(raw, token_key, aad=aad, version=_CURSOR_TOKEN_VERSION)
     except crypto.SealError as exc:
         raise _RpcHttpError(
